@@ -118,6 +118,14 @@ theorem step_gone {st : St} {r : Nat} (hg : Gone st r) (hns : ∀ m ∈ st.msgq,
         refine ⟨⟨fun hm => ?_, hg.2⟩, by simp [routeLog_append, routeLog, isRoute, key i r' hl], hns⟩
         obtain ⟨x, hx, hxe⟩ := List.mem_map.mp hm
         exact hg.1 (List.mem_map.mpr ⟨x, (List.mem_filter.mp hx).1, hxe⟩)
+    | badFwd i =>
+      cases hl : lookup st.handlers i with
+      | none =>
+        have hst : step fixed st (.badFwd i) = { st with log := st.log ++ [.panic] } := by unfold step; simp [hs', hl]
+        rw [hst]; exact ⟨hg, by simp [routeLog_append, routeLog, isRoute], hns⟩
+      | some r' =>
+        have hst : step fixed st (.badFwd i) = st := by unfold step; simp [hs', hl, fixed]
+        rw [hst]; exact ⟨hg, rfl, hns⟩
 
 theorem run_gone (es : List Ev) {st : St} {r : Nat} (hg : Gone st r) (hns : ∀ m ∈ st.msgq, ∀ c, m ≠ .shutdown c) (hnc : Ev.wakeClosed ∉ es) :
     routeLog r (run fixed st es).log = routeLog r st.log := by
@@ -221,5 +229,20 @@ theorem dispatch_run (es : List Ev) {st : St} (hi : RInv st) {id r : Nat} (hl : 
           have := ih hi' hl' hnc'
           simp only [run] at this
           rw [this, hst]; simp [proj, hid, routeLog_append, routeLog, isRoute, other i r' hli hid]
+    | badFwd i =>
+      -- an undecodable message on a forwarding route: dropped, whichever route it is on
+      cases hli : lookup st.handlers i with
+      | none =>
+        have hst : step fixed st (.badFwd i) = { st with log := st.log ++ [.panic] } := by unfold step; simp [hi.running, hli]
+        have hi' : RInv (step fixed st (.badFwd i)) := by rw [hst]; exact ⟨hi.running, hi.fresh, hi.routesNodup, hi.noShutdown⟩
+        have := ih hi' (by rw [hst]; exact hl) hnc'
+        simp only [run] at this
+        rw [this, hst]; simp [proj, routeLog, isRoute] <;> (by_cases hb : (proj id t).snd = true <;> simp [hb])
+      | some r' =>
+        have hst : step fixed st (.badFwd i) = st := by unfold step; simp [hi.running, hli, fixed]
+        rw [hst]
+        have := ih hi hl hnc'
+        simp only [run] at this
+        rw [this]; simp [proj] <;> (by_cases hb : (proj id t).snd = true <;> simp [hb])
 
 end Router
